@@ -63,13 +63,16 @@ func (s *scriptSource) Run(ctx execution.ExecutionContext, produce execution.Pro
 // ---- expressions ---------------------------------------------------------------------------------
 
 type cexpr struct {
-	kind string // col const failif trueunless eq failalways
+	kind string // col const failif trueunless eq failalways call
 	i    int
 	v    octosql.Value
+	a, b *cexpr // call: the two arguments of a strict function call
 }
 
 func (e cexpr) coq() string {
 	switch e.kind {
+	case "call":
+		return "(CCall " + e.a.coq() + " " + e.b.coq() + ")"
 	case "col":
 		return fmt.Sprintf("(CCol %d)", e.i)
 	case "const":
@@ -130,6 +133,11 @@ func (t *textExpr) Evaluate(ctx execution.ExecutionContext) (octosql.Value, erro
 var panicFn = functions.FunctionMap()["panic"].Descriptors[0].Function
 
 func mkExpr(e cexpr, f *fired) execution.Expression {
+	if e.kind == "call" {
+		// the real execution.FunctionCall of a strict two-argument function that returns its first argument
+		return execution.NewFunctionCall(func(vs []octosql.Value) (octosql.Value, error) { return vs[0], nil },
+			[]execution.Expression{mkExpr(*e.a, f), mkExpr(*e.b, f)}, []int{0, 1})
+	}
 	return &goExpr{e: e, f: f, panic: execution.NewFunctionCall(panicFn, []execution.Expression{&textExpr{f: f}}, nil)}
 }
 
@@ -486,6 +494,20 @@ func main() {
 		}
 	}
 
+	// addCaseExpect: a case whose failure is reached by construction (mustFail): the Go side reports a nil result as a
+	// failing input whatever "fired" says (a change that never evaluates the failing sub-expression raises no flag)
+	addCaseExpect := func(root *plan, level int, mustFail bool, what string) {
+		before := len(cf.Side.Cases)
+		addCase(root, level)
+		if !mustFail || len(cf.Side.Cases) == before {
+			return
+		}
+		js := cf.Side.Cases[before].(map[string]interface{})
+		cf.Count("matrix_must_fail")
+		if js["error_class"].(int) == 0 {
+			cf.Violation(before, "the failing expression is reached by construction ("+what+") but Run returned nil: "+root.describe(), "")
+		}
+	}
 	for i := 0; i < inproc; i++ {
 		r := rng.Fork()
 		if r.Chance(1, 8) {
@@ -580,6 +602,8 @@ func main() {
 		cf.Count(fmt.Sprintf("inject_source_pos_%d", pos))
 		addCase(link(ops, &plan{kind: "script", events: evs[:pos], fail: true}), level)
 	}
+
+	runMatrix(cf, addCaseExpect)
 
 	// subquery expressions: Single/MultiColumnQueryExpression over a failing subquery, inside a Map
 	for i := 0; i < inproc/15; i++ {
@@ -724,5 +748,83 @@ func runStalledJoinCase(cf *lib.CaseFile, r *lib.Rng, i int) {
 	}
 	if p != nil {
 		cf.Violation(idx, fmt.Sprintf("join panicked: %v", p), "")
+	}
+}
+
+// runMatrix: the deterministic failure-injection matrix of every run (no random choice):
+//
+//	(failing sub-expression: alone / second argument of a strict call / first argument of a strict call)
+//
+// x (row on which it fails: first, middle, last) x (the other argument of the call is NULL on that row, or never)
+// x (operator that evaluates it: Map, Filter, ORDER BY key, GROUP BY aggregate argument)
+// x (above it: nothing, Distinct, Limit whose k-th row is the failing one, Limit that ends one row earlier)
+// and the failing Map / Filter above an ORDER BY .. LIMIT k whose k-th emitted row is the failing one (and k-1).
+func runMatrix(cf *lib.CaseFile, add func(root *plan, level int, mustFail bool, what string)) {
+	for f := 0; f < 3; f++ {
+		for _, nullpos := range []int{f, -1} {
+			var evs []lib.Event
+			for i := 0; i < 3; i++ {
+				c1 := octosql.NewInt(5)
+				if i == nullpos {
+					c1 = octosql.NewNull()
+				}
+				evs = append(evs, lib.Event{Rec: execution.NewRecord([]octosql.Value{octosql.NewInt(int64(i)), c1}, false, lib.T(0))})
+			}
+			script := func() *plan { return &plan{kind: "script", events: evs} }
+			fail := cexpr{kind: "failif", i: 0, v: octosql.NewInt(int64(f))}
+			col1 := cexpr{kind: "col", i: 1}
+			exprs := []cexpr{fail, {kind: "call", a: &col1, b: &fail}, {kind: "call", a: &fail, b: &col1}}
+			for ei, e := range exprs {
+				what := fmt.Sprintf("expression shape %d fails on row %d of 3, NULL argument on row %d", ei, f, nullpos)
+				host := func(kind string, src *plan) *plan {
+					switch kind {
+					case "map":
+						return &plan{kind: "map", exprs: []cexpr{e, col1}, src: src}
+					case "filter":
+						return &plan{kind: "filter", exprs: []cexpr{e}, src: src}
+					case "ost":
+						return &plan{kind: "ost", exprs: []cexpr{e}, dirs: []int{1}, noretr: true, src: src}
+					}
+					return &plan{kind: "sgb", exprs: []cexpr{e}, src: src}
+				}
+				for _, h := range []string{"map", "filter", "ost", "sgb"} {
+					for _, above := range []string{"none", "distinct", "limit_at", "limit_before"} {
+						root := host(h, script())
+						mustFail, level := true, 0
+						switch above {
+						case "distinct":
+							root = &plan{kind: "distinct", src: root}
+						case "limit_at":
+							root = &plan{kind: "limit", id: 31, k: int64(f + 1), src: root}
+						case "limit_before":
+							if f == 0 {
+								continue
+							}
+							root = &plan{kind: "limit", id: 31, k: int64(f), src: root}
+							mustFail = h != "map" // Filter drops these rows, ORDER BY / GROUP BY read everything first
+						}
+						if h == "sgb" {
+							level = 1
+							if above != "none" {
+								level = 2
+							}
+						}
+						cf.Count("matrix_" + h + "_" + above)
+						add(root, level, mustFail, what)
+					}
+				}
+				// the failing operator above ORDER BY .. LIMIT k: the k-th emitted row is the failing one / the one before
+				for _, h := range []string{"map", "filter"} {
+					for _, k := range []int{f + 1, f} {
+						if k == 0 {
+							continue
+						}
+						sorted := &plan{kind: "ost", exprs: []cexpr{{kind: "col", i: 0}}, dirs: []int{1}, noretr: true, hasLimit: true, k: int64(k), src: script()}
+						cf.Count("matrix_" + h + "_above_order_by_limit")
+						add(host(h, sorted), 0, k == f+1, what+fmt.Sprintf(", above ORDER BY LIMIT %d", k))
+					}
+				}
+			}
+		}
 	}
 }
